@@ -525,3 +525,22 @@ package dt
 //@   ensures keys: forall k: int :: haskey(s.hash, k) == (old(s.hash) != nil && old(haskey(s.hash, k)))
 //@   ensures size: len(s.hash) == (old(s.hash) == nil ? 0 : old(len(s.hash)))
 //@   ensures sorted: sortedAll(s.list, lt)
+
+// ---------------------------------------------------------------------------
+// Synchronized Set (C13, C18): closures that touch the index or the order list
+// are only handed out wrapped in WithLock(mutex). smutex(a): the mutex stored
+// in the set's atomic holder (nil: not synchronized); TRUSTED: atomic[T].Get
+// returns it (atomic.Value behind a generic type switch is outside the subset).
+// ---------------------------------------------------------------------------
+//@ ufun smutex(ref) ref
+
+//@ func (*atomic).Get
+//@   props C13 C18
+//@   trusted atomic.Value behind a generic type switch (outside the modelled subset)
+//@   ensures result == smutex(a)
+
+//@ func (*Set).Producer
+//@   props C13 C18
+//@   requires setpre(s)
+//@   modifies s.hash, s.list.root
+//@   ensures[C13,C18] locked: smutex(s.mtx) != nil ==> closureof(result, "(Producer).WithLock$1") && closurevar(result, "mtx") == smutex(s.mtx)
